@@ -322,7 +322,7 @@ def scenario(c, tag):
         # events 0..K-1 have been executed; event K-1 is executed again by a new object that loaded the state saved after it
         st = ("%s.colvars.state" % tag) if auto else ("%s.state" % tag)
         if not auto:
-            L += ["save text %s" % st]                      # otherwise: the file written from within calc() at the last step
+            L += ["save %s %s" % ("binary" if c.get("binary") else "text", st)]      # otherwise: the file written from within calc() at the last step
         else:
             L += ["prefix", "restartfreq 0"]
         if c.get("reload"):
@@ -943,6 +943,8 @@ def add_resume(r, c):
     if m > 0.7 and it_k - c.get("start_step", 0) >= 1 and it_k < 2 ** 31:
         c["auto_state"] = it_k                             # colvarsRestartFrequency: the state written from within calc() at that step
         return
+    if r.random() < 0.25:
+        c["binary"] = 1                                    # unformatted state (same data through write_state(memory_stream))
     if m < 0.15:
         c["reload"] = 1                                    # the state is loaded back into the same session two steps later
     elif m < 0.35 and c["running"]:
@@ -1085,6 +1087,13 @@ def check(run):
                     xs = float(w_[1])
         except (OSError, ValueError):
             pass
+        if c.get("binary") and not c.get("auto_state"):
+            ms_ = MSTEPS.get("c%d" % i)
+            if ms_ is not None and len(ms_) >= K:
+                sx = None if math.isnan(ms_[K - 1]["saved_x"]) else ms_[K - 1]["saved_x"]
+                sv = None if math.isnan(ms_[K - 1]["saved_x"]) else ms_[K - 1]["saved_v"]
+                last_ = [j_ for j_ in range(K) if aw[j_][2]]
+                xs = c["events"][last_[-1]]["x"] if last_ else 0.0
         rinfo.append((sx, sv, xs))
         cs = c
         if c.get("restart_shift"):
@@ -1126,6 +1135,8 @@ def check(run):
         elif ms is not None and len(ms) >= K:
             if not (close(sx, ms[K - 1]["saved_x"], 1e-12) and close(sv, ms[K - 1]["saved_v"], 1e-12)):
                 run.mismatch("state:saved_xv", {"scenario": scn, "model_case": jobs[i][3], "engine_step": K - 1}, (sx, sv), (ms[K - 1]["saved_x"], ms[K - 1]["saved_v"]))
+        if c.get("binary") and not c.get("auto_state"):
+            run.dist("resumed: unformatted (binary) state")
         if c.get("reload"):
             run.dist("resumed: state loaded back into the same session")
         if c.get("auto_state"):
